@@ -503,6 +503,9 @@ class DatasetProcessor:
         self.io_support = IOSupport(self.args)
         self.all_read_groups = set()
         self.alignment_stat_counter = EnumStats()
+        # --read_group as given on the command line: a run restarted with --read_assignments without it takes
+        # the grouping mode of every experiment from the saved files of that experiment
+        self.requested_read_group = self.args.read_group
         # polyA requirements of the selected model construction strategy; the values used for an experiment
         # are derived from these and from the polyA percentage of that experiment only
         self.preset_require_monointronic_polya = self.args.require_monointronic_polya
@@ -565,22 +568,33 @@ class DatasetProcessor:
         logger.info("Processing experiment " + sample.prefix)
         logger.info("Experiment has " + proper_plural_form("BAM file", len(sample.file_list)) + ": " + ", ".join(
             map(lambda x: x[0], sample.file_list)))
-        self.args.use_technical_replicas = self.args.read_group == "file_name" and len(sample.file_list) > 1
-
         self.all_read_groups = set()
         # alignment statistics (incl. the number of unaligned reads written to the count tables) are per experiment
         self.alignment_stat_counter = EnumStats()
+        input_file_count = len(sample.file_list)
+        if self.args.read_assignments:
+            # a restarted run has no alignment files: the only "file" of the experiment is the prefix of its saved files.
+            # The number of input files and the grouping mode are those of the run that saved the assignments, unless
+            # --read_group is given again
+            saves_file = sample.file_list[0][0]
+            saved_file_count, saved_read_group = self.load_run_setup(saves_file)
+            if saved_file_count > 0:
+                input_file_count = saved_file_count
+            self.args.read_group = saved_read_group if self.requested_read_group is None else self.requested_read_group
         if self.args.resume and os.path.exists(sample.read_group_file + "_lock"):
             logger.info("Read group table was split during the previous run, existing files will be used")
         else:
             fname = read_group_lock_filename(sample)
             if os.path.exists(fname):
                 os.remove(fname)
-            prepare_read_groups(self.args, sample)
+            if not self.args.read_assignments:
+                # (the read groups of a restarted run are stored in the saved records: there is no table to split
+                # and no alignment file to split it against)
+                prepare_read_groups(self.args, sample)
             open(fname, "w").close()
+        self.args.use_technical_replicas = self.args.read_group == "file_name" and input_file_count > 1
 
         if self.args.read_assignments:
-            saves_file = self.args.read_assignments[0]
             logger.info('Using read assignments from {}*'.format(saves_file))
             # the count tables report the number of unaligned reads; a restarted run has no BAM file to count them from
             self.alignment_stat_counter.add(AlignmentType.unaligned, self.load_unaligned_reads(saves_file))
@@ -721,6 +735,10 @@ class DatasetProcessor:
         write_list(list(all_read_groups), info_dumper, write_string)
         # kept for runs restarted with --read_assignments (readers of the older format stop before this field)
         write_int(self.alignment_stat_counter.stats_dict[AlignmentType.unaligned], info_dumper)
+        # number of input files and grouping mode of this experiment: a restarted run cannot see them (replicas check of
+        # the model construction, grouped tables switched on by several input files); older readers stop before them
+        write_int(len(sample.file_list), info_dumper)
+        write_string_or_none(self.args.read_group, info_dumper)
         info_dumper.close()
         open(lock_file, "w").close()
 
@@ -885,6 +903,19 @@ class DatasetProcessor:
         unaligned = read_int(info_loader)
         info_loader.close()
         return unaligned
+
+    def load_run_setup(self, dump_filename):
+        info_loader = open(dump_filename + "_info", "rb")
+        read_int(info_loader)
+        read_int(info_loader)
+        read_list(info_loader, read_string)
+        read_int(info_loader)
+        # files saved before these fields were stored end here: read_int gives 0 and read_string_or_none an empty
+        # string at the end of the file; a run always has at least one input file
+        file_count = read_int(info_loader)
+        read_group = read_string_or_none(info_loader)
+        info_loader.close()
+        return file_count, read_group if read_group else None
 
     def merge_assignments(self, sample, aggregator, chr_ids):
         if self.args.genedb:
